@@ -345,6 +345,17 @@ func (f *frame) applyContract(sp *FuncSpec, callee *ssa.Function, args []Val, pc
 	for _, h := range mods {
 		c.havocHeap(st, h)
 	}
+	for _, gi := range sp.GhostInits {
+		// the callee resets and then sets this flag: its value after the call is
+		// whatever the callee's postconditions say
+		hn := "ghost$" + gi.Ghost
+		if g, ok := c.specs.Ghosts[gi.Ghost]; ok {
+			if t := c.evalType(g.Type, pkgOfFn(callee)); t != nil {
+				c.heapVar(st, hn, c.sortOf(t))
+			}
+		}
+		c.havocHeap(st, hn)
+	}
 	// results
 	var res Val
 	var results []Val
@@ -637,6 +648,30 @@ func (f *frame) builtin(b *ssa.Builtin, cc *ssa.CallCommon, pc *Term, st State, 
 		return Val{}
 	case "ssa:wrapnilchk":
 		return args[0]
+	case "SliceData", "StringData":
+		// unsafe.SliceData / unsafe.StringData: an opaque pointer to the first element
+		if x != nil {
+			return f.freshVal("unsafe_data", x.Type(), st)
+		}
+		return Val{}
+	case "String":
+		// unsafe.String(ptr, n): a string of length n over the pointed-to bytes (contents abstract)
+		if x != nil && len(args) == 2 {
+			r := f.freshVal("unsafe_string", x.Type(), st)
+			n := c.idxOf(args[1].T, args[1].Typ)
+			f.boundsCheck(pc, c.cmp(token.GEQ, n, c.idxConst(0), true), x, "unsafe-string-len")
+			c.addHyp(Implies(pc, Eq(c.strLen(r.T), n)))
+			c.note("unsafe.String: result has the given length; its bytes are not related to the source slice")
+			return r
+		}
+	case "Slice":
+		// unsafe.Slice(ptr, n): contents abstract
+		if x != nil && len(args) == 2 {
+			r := f.freshVal("unsafe_slice", x.Type(), st)
+			n := c.idxOf(args[1].T, args[1].Typ)
+			c.addHyp(Implies(pc, Eq(c.slLen(r.T), n)))
+			return r
+		}
 	}
 	f.warnf("builtin %s not modelled", b.Name())
 	if x != nil {
